@@ -48,8 +48,9 @@ class Contract(object):
                  olds=None, derived=(), assumed=False, name=None,
                  pre_effects=None, allow_raise=None, on_entry=None,
                  trusted_note='', max_paths=20000, callee_only=False,
-                 replay=None, self_param='self', kwparams=None):
+                 replay=None, self_param='self', kwparams=None, always=None):
         self.ident = ident
+        self.always = _labelled(always)     # clauses that must hold however the call ends (return or raise)
         self.name = name or ident.split('::')[-1]
         self.params = OrderedDict(params or {})
         self.requires = _labelled(requires)
@@ -213,6 +214,16 @@ class Contract(object):
                         continue
                     kind = 'post-derived' if label in self.derived else 'post'
                     path.oblige('%s.post.%s' % (self.name, label), zbool(c), kind=kind)
+            for label, src in self.always:
+                try:
+                    c = it.spec_bool(src, senv)
+                except Unsupported as u:
+                    path.obligations.append(Obligation('%s.always.%s' % (self.name, label), 'undecided', 'none', 0.0,
+                                                       pathid=path.pathid, detail='spec not evaluable: %s' % u,
+                                                       kind='post'))
+                    continue
+                path.oblige('%s.always.%s' % (self.name, label), zbool(c), kind='post',
+                            detail='outcome: %s' % (outcome[0] if outcome[0] == 'return' else 'raise ' + outcome[1].etype))
             return outcome
 
         def on_path(path, outcome):
